@@ -74,13 +74,7 @@ pub fn doc_of(c: &Case) -> Option<Doc> {
     let mut seen = std::collections::BTreeSet::new();
     for f in &c.files {
         let n = &f.name.0;
-        let comps: Vec<&[u8]> = n.split(|b| *b == b'/').collect();
-        if n.is_empty()
-            || n.iter().any(|b| m::is_ws(*b))
-            || comps.iter().enumerate().any(|(i, c)| c.is_empty() || (*c == b"." && (i > 0 || comps.len() == 1)) || *c == b"..")
-            || !m::unambiguous(n)
-            || !seen.insert(n.clone())
-            || f.checksums.is_empty()
+        if !m::name_in_domain(n) || !seen.insert(m::path_key(n)) || f.checksums.is_empty()
         {
             return None;
         }
@@ -255,6 +249,12 @@ pub fn check(c: &Case, obs: &mut Obs) -> Result<(), String> {
     }
     if sub {
         obs.class("name-with-subdir");
+    }
+    if all.iter().any(|f| f.name.windows(2).any(|w| w == b"//") || f.name.ends_with(b"/") || f.name.starts_with(b"/") || f.name.windows(3).any(|w| w == b"/./")) {
+        obs.class("name-with-doubled/leading/trailing-slash-or-dot-component");
+    }
+    if all.iter().any(|f| all.iter().any(|g| g.name != f.name && (g.name.starts_with(&f.name) || g.name.ends_with(&f.name)))) {
+        obs.class("one-name-is-prefix/suffix-of-another");
     }
     if !d.patchfiles.is_empty() {
         obs.class("has-patches");
